@@ -35,7 +35,7 @@ fn main() {
     Property {
         id: "C03",
         level: "exploration",
-        rule: "SchedProbe hook (real pending queue, real drain, real reserve_for_receipt) on raw keys. RNG-free exhaustive: all 46 656 ordered pairs over 108 footprints x 2 instances; all ordered pairs of two-instance footprints with <=2 touched resources (129^2); all 531 441 ordered triples over the 81-element single-instance universe. Each under Radix, Legacy(all-ones mask) and Legacy(one bit per touched resource). proptest: 2-400 random footprints over 2x4 resources; sort sets of 0..5000 keys (dense at 1000-1050, exactly 1023/1024/1025) with shared prefixes of 0-30 bytes and differences confined to one chosen 16-bit digit (all 16 scope passes targeted), rule ids differing only in low/high half, duplicate re-enqueues. Oracles: reference greedy predicate with exact ascending blocker lists; try_from_retained_parts accepts; kinds agree; drain == sorted last-wins reference with payload identity. Non-trivial = conflicting pair / the A-accepts,B-rejected,C-conflicts-only-with-B triple shape / set with a reject and >=2 accepts / sort set >1024 or single-digit differences.",
+        rule: "SchedProbe hook (real pending queue, real drain, real reserve_for_receipt) on raw keys. RNG-free exhaustive: all 46 656 ordered pairs over 108 footprints x 2 instances; all ordered pairs of two-instance footprints with <=2 touched resources (129^2); all 531 441 ordered triples over the 81-element single-instance universe. Each under Radix, Legacy(all-ones mask) and Legacy(one bit per touched resource). every arrival sequence with repeats over 4 keys up to length 6 (5 461 sequences x 2 kinds) against the last-wins sorted reference; proptest: 2-400 random footprints over 2x4 resources; arrival orders random/ascending/descending/nearly-ascending with duplicates inserted at generated positions; sort sets of 0..5000 keys (dense at 1000-1050, exactly 1023/1024/1025) with shared prefixes of 0-30 bytes and differences confined to one chosen 16-bit digit (all 16 scope passes targeted), rule ids differing only in low/high half, duplicate re-enqueues. Oracles: reference greedy predicate with exact ascending blocker lists; try_from_retained_parts accepts; kinds agree; drain == sorted last-wins reference with payload identity. Non-trivial = conflicting pair / the A-accepts,B-rejected,C-conflicts-only-with-B triple shape / set with a reject and >=2 accepts / sort set >1024 or single-digit differences.",
         assumptions: &[
             "conflict predicate is written from the property statement (write vs read/write on node, edge, attachment; any shared port; per instance)",
             "raw generator keeps compact rule id order equal to rule-id byte order (the only case the engine can produce), so Radix and Legacy are comparable",
